@@ -91,6 +91,7 @@ type VMResult struct {
 	Err     error
 	Globals map[string]tengo.Object
 	Steps   int
+	Allocs  int64 // tracked allocations performed (from the VM's counter), valid for maxAllocs < 0
 }
 
 // RunVM executes bc on a fresh VM with the given globals, bounded by an
@@ -99,8 +100,10 @@ func RunVM(bc *tengo.Bytecode, globals []tengo.Object, index map[string]int, bud
 	res = &VMResult{Globals: map[string]tengo.Object{}}
 	vm := tengo.NewVM(bc, globals, maxAllocs)
 	over := false
+	var left int64
 	tengo.VerifSetProbe(func(v *tengo.VM) {
 		res.Steps++
+		left = v.VerifAllocsLeft()
 		if res.Steps > budget {
 			over = true
 			v.Abort()
@@ -116,6 +119,11 @@ func RunVM(bc *tengo.Bytecode, globals []tengo.Object, index map[string]int, bud
 		}()
 		res.Err = vm.Run()
 	}()
+	if maxAllocs < 0 {
+		res.Allocs = -left
+	} else {
+		res.Allocs = maxAllocs + 1 - left
+	}
 	for name, idx := range index {
 		if idx < len(globals) {
 			o := globals[idx]
